@@ -133,11 +133,11 @@ CHECKS = [
         'joblib.Parallel ordering is an assumed contract (real worker schedules cannot be explored); cdist / meshgrid models',
         'contract-based deductive verification: sidecar contracts on the real functions, ast->z3 VC generation on the real source (re-read every run), external z3 portfolio + z3 lemma layer + exhaustive small-volume oracles',
         'DESIGN.md C19'),
-    chk('C20', 'exploration',
-        'Bounded run-time oracles only: BIDS parse / rebuild / look-ups exhaustively over presence/absence of all optional entities x 6 value families, generated Meadows .mat/.json files, fake and real MNE epochs, design matrices, SPM filtering with orthonormal bases. No deductive obligation is discharged for this property in this round (the string-theory encoding of the BIDS grammar was not built); the level says so.',
-        'scipy.io, h5py, nibabel (faked), pandas assumed; 3 open findings',
-        'run-time contracts with spec-function oracles on bounded domains (bounded stand-in; no obligations proved)',
-        'DESIGN.md C20'),
+    chk('C20', 'other',
+        "Deductive tier (structured strings in engine A): the real BidsFile._deconstruct/_findEntity and BidsLayout._replace are symbolically executed on path strings whose entity values are ATOMS (arbitrary non-empty alphanumeric tokens), for all 2^6 presence/absence combinations of derivative, ses, task, run, space, desc x one-/two-part extensions (enumerated completely): parsing recovers exactly the encoded entities, rebuilding returns the original path, the MRI-sibling and meta look-ups change only the entities they are asked to change -- for ALL entity values. Meadows files, MNE epochs, design matrices (dof, normalisation) and SPM filtering are decided by bounded run-time oracles on generated inputs.",
+        "entity values restricted to the BIDS alphanumeric grammar; os.path.join/normpath/basename models on relative normalised paths; scipy.io, pandas, nibabel (faked) assumed; 3 open findings",
+        "contract-based deductive verification: symbolic execution of the real parser/builder on structured strings (split / prefix / replace decided structurally for all atom values) + bounded run-time oracles",
+        'DESIGN.md C20 and 10.8'),
 ]
 
 NOT_APPLICABLE = []
